@@ -4,6 +4,7 @@
 From Coq Require Import String.
 From Comdex Require Import Lib.Base Lib.Atomic Model.HookLang Gen.HookTable Model.Hooks Model.Sweep
      Model.Market Proofs.HooksProofs Proofs.MarketProofs.
+From Comdex Require Model.Liquidation.
 Local Open Scope Z_scope.
 
 (* ---- all-or-nothing, for EVERY body of an ApplyFuncIfNoError, every behaviour of the calls in
@@ -58,27 +59,34 @@ Proof.
 Qed.
 Print Assumptions c15_hook_no_halt.
 
-(* ---- the table: every unit the property names is wrapped per item, except the listed classes ---- *)
-Theorem c15_units_wrapped_partial :
-  forall u, In u hook_units -> unit_known_unwrapped u = false -> unit_is_wrapped hook_table u = true.
+(* ---- the table: EVERY unit the property names is wrapped per item (no exempted class) ---- *)
+Theorem c15_units_wrapped :
+  forall u, In u hook_units -> unit_is_wrapped hook_table u = true.
 Proof.
-  intros u Hin Hk. pose proof units_wrapped_table as H. rewrite forallb_forall in H.
-  specialize (H u Hin). rewrite Hk in H. exact H.
+  intros u Hin. pose proof units_wrapped_table as H. rewrite forallb_forall in H. exact (H u Hin).
 Qed.
-Print Assumptions c15_units_wrapped_partial.
+Print Assumptions c15_units_wrapped.
 
-(* partial because: the V2 borrow sweep calls LiquidateIndividualBorrow for each borrow WITHOUT a
-   wrap and returns at the first error (x/liquidationsV2/keeper/liquidate.go:247-252), and the
-   V2 surplus / debt trigger loop (liquidate.go:452-466) likewise *)
-Theorem c15_v2_borrow_unwrapped_refuted :
-  exists u, In u hook_units /\ kf_C15_1 (u_id u) = true /\ unit_is_wrapped hook_table u = false.
+(* the V2 borrow unit (one LiquidateIndividualBorrow) used to be the class kf_C15_1: the loop of
+   LiquidateBorrows called it WITHOUT a wrap and returned at the first error.  Repaired by fix
+   C09-F3 / C15-F1 (each borrow inside ApplyFuncIfNoError): on the regenerated table the unit is
+   wrapped per item (the former witness of c15_v2_borrow_unwrapped_refuted, kept as a regression) *)
+Theorem c15_v2_borrow_wrapped_fixed :
+  exists u, In u hook_units /\ u_id u = "v2.borrow"%string /\ unit_is_wrapped hook_table u = true.
 Proof. exists (nth 3 hook_units (mkUnit "" "" "" [])). vm_compute. repeat split. right. right. right. left. reflexivity. Qed.
-Print Assumptions c15_v2_borrow_unwrapped_refuted.
+Print Assumptions c15_v2_borrow_wrapped_fixed.
 
-Theorem c15_v2_surplusdebt_unwrapped_refuted :
-  exists u, In u hook_units /\ kf_C15_3 (u_id u) = true /\ unit_is_wrapped hook_table u = false.
+(* the V2 surplus / debt trigger (one CheckStatsForSurplusAndDebt per (app, asset)) used to be the
+   class kf_C15_3: the loop of LiquidateForSurplusAndDebt (liquidate.go:452-466) called it WITHOUT a
+   wrap and returned at the first error.  Reproduced on the real code (a trigger failing after
+   GetAmountFromCollector kept the coin movement and the net-fee decrease; a panic inside it left
+   liquidationsV2.BeginBlocker), repaired by fix C15-F3 (each trigger inside ApplyFuncIfNoError):
+   on the regenerated table the unit is wrapped per item (the former witness of
+   c15_v2_surplusdebt_unwrapped_refuted, kept as a regression) *)
+Theorem c15_v2_surplusdebt_wrapped_fixed :
+  exists u, In u hook_units /\ u_id u = "v2.surplusdebt"%string /\ unit_is_wrapped hook_table u = true.
 Proof. exists (nth 10 hook_units (mkUnit "" "" "" [])). vm_compute. repeat split. do 10 right. left. reflexivity. Qed.
-Print Assumptions c15_v2_surplusdebt_unwrapped_refuted.
+Print Assumptions c15_v2_surplusdebt_wrapped_fixed.
 
 (* the table is closed: every BeginBlocker / EndBlocker found in x/ is one of the hooks
    considered here, every expansion resolves, and no shape was left unrecognised *)
@@ -92,61 +100,87 @@ Print Assumptions c15_table_closed.
 
 (* ---- what stands outside every wrap is accounted for ----
    (a) every unwrapped leaf of every hook is a read or is registered with a justification;
-   (b) the lemmas behind the justifications: the sweep's slice expression is in range when the
-       length the code uses does not exceed the capacity of the list (Inv: counter = list length)
-       and offset + batch does not overflow int; a range index is in range; x[:0] is valid; the
-       market hook's UpdatePriceList does not panic for window size >= 1 (after fix b0fc61e) (C17).
+   (b) the lemmas behind the justifications:
+       - the sweep's slice expression  total[start:end]  is in range for EVERY stored offset and EVERY
+         stored batch size (any uint64: the caller's int() conversion is modelled, values >= 2^63
+         become negative ints and take the helper's batchSize < 0 branch; a wrapping
+         offset + batchSize  is caught by the repaired helper, fix C15-F2), under the REACHABILITY
+         hypothesis  counter <= cap : the length the code passes as sliceLen does not exceed the
+         capacity of the sliced list.  For the borrow sweeps sliceLen is len(borrowIDs) itself; for
+         the vault sweeps it is the stored LengthOfVault counter, and counter = number of open vaults
+         = len(GetVaults()) <= cap is C01's invariant (every wired path that adds or removes a vault
+         moves the counter with it; the only double increment, auction/keeper/dutch.go
+         RestartDutchAuctions, is reachable only from the first-generation auction BeginBlocker,
+         which is not wired on this tree - Example c15_wiring).  A state with counter > cap is
+         outside the property's quantifier ("for every reachable state");
+       - a range index is in range; x[:0] is valid; the market hook's UpdatePriceList does not panic
+         for window size >= 1 (after fix b0fc61e) (C17).
    partial: JStoreWrite / JBand leaves and reads are modelled as total (protobuf decoding of stored
-   records, ibc send), JKnownFinding leaves are the classes kf_C15_1 / kf_C15_3. *)
+   records, ibc send). *)
 Theorem c15_unwrapped_total_partial :
   (forall l, In l (all_root_leaves hook_table) -> unwrapped_leaf_ok l = true) /\
-  (forall (A : Type) (zero : A) (l : list A) cap counter off batch,
-      0 <= counter <= cap -> zlen l <= cap -> 0 <= batch <= int_max -> off + batch <= int_max ->
-      exists items e, sweep_slice zero l cap counter off batch = Some (items, e) /\ 0 <= e <= counter) /\
+  (forall (A : Type) (zero : A) (l : list A) cap counter_u off_u batch_u,
+      0 <= counter_u <= cap -> cap <= int_max -> zlen l <= cap ->
+      exists items e, sweep_slice_stored zero l cap counter_u off_u batch_u = Some (items, e) /\ 0 <= e <= counter_u) /\
   (forall (A : Type) (l : list A) i, (i < length l)%nat -> exists x, nth_z l i = Some x) /\
   (forall cap, 0 <= cap -> go_slice_ok cap 0 0 = true) /\
   (forall n gap ops, 1 <= n -> exists t', mrun n gap None ops = Ok t').
 Proof.
   split; [|split; [|split; [|split]]].
   - intros l Hl. pose proof unwrapped_leaves_table as H. rewrite forallb_forall in H. exact (H l Hl).
-  - intros A zero l cap counter off batch. apply sweep_slice_no_panic.
+  - intros A zero l cap counter off batch. apply sweep_slice_stored_no_panic.
   - intros A l i. apply range_index_ok.
   - exact slice_zero_ok.
   - intros n gap ops Hn. destruct (mrun_inv n gap ops ghost0 None Hn (inv_init n)) as (t' & Hr & _). exists t'. exact Hr.
 Qed.
 Print Assumptions c15_unwrapped_total_partial.
 
-(* outside the class kf_C15_2 the slice expression does not panic, and the class is exactly the
-   inputs on which it does *)
-Theorem c15_slice_class :
-  forall (A : Type) (zero : A) (l : list A) cap counter off batch, zlen l <= cap ->
-  (kf_C15_2 cap counter off batch = false <-> exists r, sweep_slice zero l cap counter off batch = Some r).
+(* the same on ints, for EVERY offset and EVERY batch size in Z (no domain restriction at all):
+   the window handed to the slice expression is 0 <= start <= end <= counter *)
+Theorem c15_sweep_slice_total :
+  forall (A : Type) (zero : A) (l : list A) cap counter off batch,
+  0 <= counter <= cap -> zlen l <= cap ->
+  exists items e, sweep_slice zero l cap counter off batch = Some (items, e) /\ 0 <= e <= counter.
+Proof. intros A zero l cap counter off batch. apply sweep_slice_no_panic. Qed.
+Print Assumptions c15_sweep_slice_total.
+
+(* after fix C15-F2 the window computed in int64 arithmetic is, on every int input, the window computed
+   over unbounded integers - the one C09's model (Model/Liquidation.v) reasons about: the wrap-around
+   of  offset + batchSize  no longer shows (before the fix this failed for off >= 1, off + batch > 2^63-1) *)
+Theorem c15_window_is_unbounded_window :
+  forall len off batch, len <= int_max -> off <= int_max -> batch <= int_max ->
+  sweep_window len off batch = Comdex.Model.Liquidation.sweep_window len off batch.
+Proof. exact sweep_window_unbounded. Qed.
+Print Assumptions c15_window_is_unbounded_window.
+
+(* the int() conversion of the stored uint64 values, as the model uses it *)
+Theorem c15_int_of_uint64 :
+  forall u, (0 <= u <= int_max -> int_of_uint64 u = u) /\
+            (int_max < u <= uint64_max -> int_of_uint64 u = u - 18446744073709551616 /\ int_of_uint64 u < 0).
+Proof. intro u. split; [apply int_of_uint64_small|apply int_of_uint64_big]. Qed.
+Print Assumptions c15_int_of_uint64.
+
+(* exactly when the slice expression panics (the predictor [slice_panics] the runner uses to VALIDATE
+   the model of the slice expression on the fabricated-counter cases of the harness):
+   (1) the predictor is the modelled slice expression returning None;
+   (2) it is true exactly when the end of the window lies beyond the capacity;
+   (3) hence only if counter > cap - never in a reachable state;
+   (4) with a batch size that covers the whole list (counter <= batch, e.g. the default 200 against
+       a few vaults) it is true exactly when counter > cap. *)
+Theorem c15_slice_panics_iff :
+  forall (A : Type) (zero : A) (l : list A) cap counter off batch, zlen l <= cap -> 0 <= counter ->
+  (slice_panics cap counter off batch = false <-> exists r, sweep_slice zero l cap counter off batch = Some r) /\
+  (slice_panics cap counter off batch = true <-> cap < snd (sweep_window counter off batch)) /\
+  (slice_panics cap counter off batch = true -> cap < counter) /\
+  (counter <= batch <= int_max -> (slice_panics cap counter off batch = true <-> cap < counter)).
 Proof.
-  intros A zero l cap counter off batch Hl. unfold kf_C15_2, sweep_slice, go_slice.
-  destruct (sweep_window counter off batch) as [s e].
-  replace (zlen l <=? cap) with true by (symmetry; apply Z.leb_le; exact Hl).
-  destruct (go_slice_ok cap s e); cbn; split; intro H; try reflexivity; try discriminate.
-  - eexists; reflexivity.
-  - destruct H as [r H]. discriminate.
+  intros A zero l cap counter off batch Hl Hc. split; [|split; [|split]].
+  - apply slice_panics_spec. exact Hl.
+  - apply slice_panics_iff. exact Hc.
+  - apply slice_panics_only_if. exact Hc.
+  - intros [H1 H2]. apply slice_panics_full_batch; [split; assumption|exact H2].
 Qed.
-Print Assumptions c15_slice_class.
-
-(* ---- refutations (known findings) ---- *)
-(* a counter larger than the capacity of the list makes  totalVaults[start:end]  panic, in a part
-   of the sweep that nothing wraps: 3 vaults (capacity 4 after append growth), counter 10 *)
-Theorem c15_slice_refuted :
-  exists cap counter off batch, cap < counter /\ 0 <= batch <= int_max /\ off + batch <= int_max /\
-    sweep_slice 0 [1; 2; 3] cap counter off batch = None /\ kf_C15_2 cap counter off batch = true.
-Proof. exists 4, 10, 0, 200. vm_compute. repeat split; intro; discriminate. Qed.
-Print Assumptions c15_slice_refuted.
-
-(* offset + batchSize overflows int: counter = length = 3, stored offset 1, batch 2^63-1 (a value
-   the parameter validation accepts): end wraps negative and the slice expression panics *)
-Theorem c15_slice_overflow_refuted :
-  exists off batch, 0 <= off /\ 0 < batch <= int_max /\
-    sweep_slice 0 [1; 2; 3] 3 3 off batch = None /\ kf_C15_2 3 3 off batch = true.
-Proof. exists 1, int_max. vm_compute. repeat split; intro; discriminate. Qed.
-Print Assumptions c15_slice_overflow_refuted.
+Print Assumptions c15_slice_panics_iff.
 
 (* the market hook (unwrapped) used to panic for window size 1 - C17's finding seen from C15;
    repaired by fix commit b0fc61e: the same history now runs (witness kept as a regression) *)
@@ -172,8 +206,9 @@ Example c15_loop_continues :
   = RunOk 4.
 Proof. vm_compute. reflexivity. Qed.
 
-(* the same loop WITHOUT the wrap (the V2 borrow shape): the failing item's partial write stays
-   and the remaining items are not processed *)
+(* the same loop WITHOUT the wrap (the shape of the V2 borrow loop before fix C09-F3 / C15-F1 and of
+   the V2 surplus / debt loop before fix C15-F3): the failing item's partial write stays and the
+   remaining items are not processed *)
 Example c15_unwrapped_loop_stops :
   run_hook (fun n idx (s : Z) => match idx with [1%nat] => RunErr (s + 100) 1 | [j] => RunOk (s + Z.of_nat j + 1) | _ => RunOk s end)
        (fun _ _ _ _ => false) (fun _ _ _ => 3%nat)
@@ -181,11 +216,74 @@ Example c15_unwrapped_loop_stops :
   = Returned 101.
 Proof. vm_compute. reflexivity. Qed.
 
+(* regression of C15-F1 on the REAL regenerated row of liquidationsV2.LiquidateBorrows: borrow 1
+   of 3 panics after a partial write (an active oracle price of 0: division by zero): the hook
+   returns, the partial write is dropped and borrows 0 and 2 are processed completely *)
+Example c15_v2_borrow_loop_continues :
+  run_hook (fun n idx (s : Z) =>
+              if String.eqb n "liquidationsV2.LiquidateIndividualBorrow"
+              then match idx with [1%nat] => RunPanic (s + 100) | [j] => RunOk (s + Z.of_nat j + 1) | _ => RunOk s end
+              else RunOk s)
+           (fun _ _ _ _ => false) (fun _ _ _ => 3%nat)
+           (resolved hook_table "liquidationsV2.LiquidateBorrows") 0
+  = Returned 4.
+Proof. vm_compute. reflexivity. Qed.
+
 (* hypotheses of the sweep lemma are met by a concrete state: 5 vaults, counter 5, offset 2, batch 2 *)
 Example c15_sweep_example : sweep_slice 0 [1; 2; 3; 4; 5] 8 5 2 2 = Some ([3; 4], 4).
 Proof. vm_compute. reflexivity. Qed.
 
+(* regression of C15-F2 (the witness of the former c15_slice_overflow_refuted): counter = length = 3,
+   stored offset 1, batch 2^63-1 (a value the parameter validation accepts).  offset + batchSize
+   wraps negative; the repaired helper returns the window (1, 3) where the old one returned
+   (1, -9223372036854775808) and the slice expression panicked *)
+Example c15_slice_overflow_fixed :
+  sweep_slice 0 [1; 2; 3] 3 3 1 int_max = Some ([2; 3], 3) /\ slice_panics 3 3 1 int_max = false.
+Proof. vm_compute. split; reflexivity. Qed.
+
+(* the input the harness reproduces on the real code (fault batch-huge on state p2: two vaults
+   liquidated by a complete sweep leave the stored offset 2; four vaults are created; the batch size
+   becomes 2^63-1 by a parameter change), and the stored batch sizes 2^63 and 2^64-1, which int()
+   turns negative: the window is empty and the stored offset becomes the counter *)
+Example c15_stored_batch_sizes :
+  sweep_slice_stored 0 [1; 2; 3; 4] 4 4 2 int_max = Some ([3; 4], 4) /\
+  sweep_slice_stored 0 [1; 2; 3; 4] 4 4 2 (int_max + 1) = Some ([], 4) /\
+  sweep_slice_stored 0 [1; 2; 3; 4] 4 4 2 uint64_max = Some ([], 4) /\
+  int_of_uint64 (int_max + 1) = -9223372036854775808 /\ int_of_uint64 uint64_max = -1.
+Proof. vm_compute. repeat split; reflexivity. Qed.
+
+(* the predictor on a FABRICATED state (the harness sets the counter directly through the keeper:
+   3 vaults, capacity 4 after append growth, counter 10, batch 200): the slice expression panics.
+   Model validation only - counter > cap is unreachable (formerly listed as c15_slice_refuted) *)
+Example c15_slice_panics_fabricated :
+  slice_panics 4 10 0 200 = true /\ sweep_slice 0 [1; 2; 3] 4 10 0 200 = None /\ slice_panics 4 4 0 200 = false.
+Proof. vm_compute. repeat split; reflexivity. Qed.
+
 (* the V1 auction and liquidation hooks are not wired into their AppModule.BeginBlock on this tree *)
+(* regression of C15-F3 on the REAL regenerated row of liquidationsV2.LiquidateForSurplusAndDebt:
+   the trigger of mapping 0 of 2 reports failure after a partial write (the coin movement of
+   GetAmountFromCollector): the write is dropped and mapping 1 is still processed *)
+Example c15_v2_surplusdebt_loop_continues :
+  run_hook (fun n idx (s : Z) =>
+              if String.eqb n "liquidationsV2.CheckStatsForSurplusAndDebt"
+              then match idx with [0%nat] => RunErr (s + 100) 1 | [j] => RunOk (s + Z.of_nat j + 1) | _ => RunOk s end
+              else RunOk s)
+           (fun _ _ _ _ => false) (fun _ _ _ => 2%nat)
+           (resolved hook_table "liquidationsV2.LiquidateForSurplusAndDebt") 0
+  = Returned 2.
+Proof. vm_compute. reflexivity. Qed.
+
+(* the unit projection judged by the runner (values observed on the real code): a trigger that
+   reported failure with the lot gone from the collector is a partial write (class 2), which
+   holds_C15 rejects - also when the failure is not reported; nothing visible and the complete
+   surplus auction are accepted *)
+Example c15_trigger_obs :
+  trigger_obs_diff true (-5000) (-5000) 0 0 0 = 2 /\ holds_C15 true (trigger_obs_diff true (-5000) (-5000) 0 0 0) true = false /\
+  holds_C15 true (trigger_obs_diff false (-5000) (-5000) 0 0 0) true = false /\
+  holds_C15 true (trigger_obs_diff true 0 0 0 0 0) true = true /\
+  holds_C15 true (trigger_obs_diff false (-5000) (-5000) 1 1 1) true = true.
+Proof. vm_compute. repeat split; reflexivity. Qed.
+
 Example c15_wiring :
   map fst hook_wiring = ["asset.AppModule.BeginBlock"; "auctionsV2.AppModule.BeginBlock"; "bandoracle.AppModule.BeginBlock";
     "esm.AppModule.BeginBlock"; "lend.AppModule.BeginBlock"; "liquidationsV2.AppModule.BeginBlock";
